@@ -819,24 +819,23 @@ func (v *validator) compositeConstruct(in *Inst, rt tinfo) {
 			v.add(rTypeComposite, in.Index, "OpCompositeConstruct of a vector needs at least two constituents")
 		}
 	case TMatrix, TArray, TStruct:
-		var want []uint32
+		wantN := int64(t.Count)
 		if t.Kind == TStruct {
-			want = t.Members
-		} else {
-			if t.Kind == TArray && t.Count == 0 {
-				return
-			}
-			for i := uint32(0); i < t.Count; i++ {
-				want = append(want, t.Elem)
-			}
+			wantN = int64(len(t.Members))
+		} else if t.Kind == TArray && t.Count == 0 {
+			return
 		}
-		if len(in.Args) != len(want) {
+		if int64(len(in.Args)) != wantN {
 			v.add(rTypeComposite, in.Index, "OpCompositeConstruct has %d constituents for %s", len(in.Args), ts(in.Type))
 			return
 		}
 		for i, a := range in.Args {
-			if at, ok := v.operandType(in, a); ok && at != want[i] {
-				v.add(rTypeComposite, in.Index, "OpCompositeConstruct constituent %d has type %s, want %s", i, ts(at), ts(want[i]))
+			w := t.Elem
+			if t.Kind == TStruct {
+				w = t.Members[i]
+			}
+			if at, ok := v.operandType(in, a); ok && at != w {
+				v.add(rTypeComposite, in.Index, "OpCompositeConstruct constituent %d has type %s, want %s", i, ts(at), ts(w))
 			}
 		}
 	default:
